@@ -297,3 +297,95 @@ Fixpoint failing_from (i : N) (l : list case) : list (N * N) :=
   end.
 
 Definition failing (l : list case) : list (N * N) := failing_from 0 l.
+
+(** * C04: placeholders and the fallible serializer [Quil::to_quil]
+
+    An instruction tree built through the API, abstracted to what the serializer's error behaviour
+    depends on: the qubit and label-target positions in the order in which [Quil::write] visits
+    them, each either concrete or a placeholder, with nested instruction bodies (DEFCAL, DEFCAL
+    MEASURE, DEFCIRCUIT) as subtrees.  [write] visits positions left to right and returns the
+    first error ([UnresolvedQubitPlaceholder] / [UnresolvedLabelPlaceholder]); with
+    [fall_back_to_debug] it never fails. *)
+Inductive node :=
+| NQ (placeholder : bool)          (* a qubit position *)
+| NL (placeholder : bool)          (* a jump / label target position *)
+| NB (children : list node).       (* an instruction or a block of instructions *)
+
+Inductive qerr := EQubit | ELabel.
+
+(** [to_quil]: [None] = [Ok text] *)
+Fixpoint to_quil_model (n : node) : option qerr :=
+  match n with
+  | NQ true => Some EQubit
+  | NL true => Some ELabel
+  | NQ false | NL false => None
+  | NB l =>
+      (fix go (l : list node) : option qerr :=
+         match l with
+         | [] => None
+         | x :: t => match to_quil_model x with Some e => Some e | None => go t end
+         end) l
+  end.
+
+Fixpoint has_placeholder (n : node) : bool :=
+  match n with
+  | NQ b | NL b => b
+  | NB l => (fix go (l : list node) : bool :=
+               match l with [] => false | x :: t => has_placeholder x || go t end) l
+  end.
+
+(** the positions in visiting order *)
+Fixpoint leaves (n : node) : list (option qerr) :=
+  match n with
+  | NQ b => [if b then Some EQubit else None]
+  | NL b => [if b then Some ELabel else None]
+  | NB l => (fix go (l : list node) : list (option qerr) :=
+               match l with [] => [] | x :: t => leaves x ++ go t end) l
+  end.
+
+Fixpoint first_some (l : list (option qerr)) : option qerr :=
+  match l with [] => None | Some e :: _ => Some e | None :: t => first_some t end.
+
+(** observed result of [to_quil] *)
+Inductive qres := QOk | QErrQubit | QErrLabel | QErrOther.
+
+Definition qres_of (o : option qerr) : qres :=
+  match o with None => QOk | Some EQubit => QErrQubit | Some ELabel => QErrLabel end.
+
+Definition qres_eqb (a b : qres) : bool :=
+  match a, b with
+  | QOk, QOk | QErrQubit, QErrQubit | QErrLabel, QErrLabel | QErrOther, QErrOther => true
+  | _, _ => false
+  end.
+
+(** A C04 case: the tree, the observed [to_quil] result, whether [to_quil_or_debug] returned
+    (did not panic), and for placeholder-free trees whether the text re-parsed to an equivalent
+    instruction ([None] when there is a placeholder: nothing to re-parse). *)
+Definition ph_case := (node * qres * bool * option bool)%type.
+
+(** the property on one instance: error iff placeholder, the error names the kind of the first
+    placeholder in visiting order, debug serializer total, and the re-parse of a placeholder-free
+    tree is equivalent *)
+Definition chk_placeholder (c : ph_case) : bool :=
+  let '(n, r, dbg, rp) := c in
+  Bool.eqb (negb (qres_eqb r QOk)) (has_placeholder n)
+  && qres_eqb r (qres_of (first_some (leaves n)))
+  && dbg
+  && match rp with Some b => b | None => has_placeholder n end.
+
+Definition ph_code (c : ph_case) : N :=
+  let '(n, r, dbg, rp) := c in
+  if negb (chk_placeholder c) then 2%N
+  else if negb (qres_eqb (qres_of (to_quil_model n)) r) then 1%N
+  else 0%N.
+
+Fixpoint ph_failing_from (i : N) (l : list ph_case) : list (N * N) :=
+  match l with
+  | [] => []
+  | c :: t =>
+      let code := ph_code c in
+      if N.eqb code 0 then ph_failing_from (N.succ i) t
+      else (i, code) :: ph_failing_from (N.succ i) t
+  end.
+
+Definition ph_failing (l : list ph_case) : list (N * N) := ph_failing_from 0 l.
